@@ -361,7 +361,9 @@ func GenMPTHistory(r *rand.Rand, maxOps int) []MOp {
 	}
 	var pool [][]byte
 	nops := 3 + r.Intn(maxOps)
-	vals := []string{"a", "b", "c", "x3a", "x003a00ff", "x0a", "hello"}
+	// (single bytes that mean something to an encoding layer are values like any other: 0xc0 is msgpack's nil, 0x80 / 0x90 / 0xa0
+	// its empty map / array / string, 0x3a the field separator of the node format)
+	vals := []string{"a", "b", "c", "x3a", "x003a00ff", "x0a", "hello", "xc0", "x00", "xff", "x80", "x90c0"}
 	if MaxValBudget > 0 {
 		// the size limit from below: values of exactly the largest accepted size are values like any other
 		MaxValBudget--
